@@ -164,6 +164,15 @@ func vlbRun(bh *vlbBehaviour) (outs []vlbOut) {
 				order = false // content order is judged for the single-buffer behaviours (appends: the ByteQueue replays)
 			}
 			switch st.Op {
+			case "Book":
+				order = false
+				p := b.book(st.N*vlbUnit, st.M*vlbUnit)
+				for i := range p {
+					p[i] = 0xB0 // the kernel fills the reservation
+				}
+			case "BookAck":
+				order = false
+				b.bookAck(st.N * vlbUnit)
 			case "NewBuf":
 				order = false
 				bufs[st.B] = NewLinkBuffer(st.N * vlbUnit)
